@@ -2,7 +2,7 @@
 # usage: tools/benigntest.sh — must-pass corpus: harmless refactorings (tools/benign/*.diff) applied in a scratch
 # worktree must raise no VIOLATION in any of the listed checks.
 cd /verif
-declare -A props=( [b0_rename_sort]="C07 C15" [b1_rename_npm]="C02 C06" [b2_msg_debian]="C06 C10 C18" [b3_switch_semver]="C01 C03 C08" [b4_local_gem]="C13 C01" [b5_min_cran]="C03 C01 C06" [b6_rename_debian_scanner]="C10 C06 C01" [b7_rename_vers_seen]="C16 C04 C06" [b8_rename_vers_pairing]="C04 C17 C06" [b9_switch_rpm_tail]="C11 C06 C01" [b10_rename_vers_toranges]="C04 C16" )
+declare -A props=( [b0_rename_sort]="C07 C15" [b1_rename_npm]="C02 C06" [b2_msg_debian]="C06 C10 C18" [b3_switch_semver]="C01 C03 C08" [b4_local_gem]="C13 C01" [b5_min_cran]="C03 C01 C06" [b6_rename_debian_scanner]="C10 C06 C01" [b7_rename_vers_seen]="C16 C04 C06" [b8_rename_vers_pairing]="C04 C17 C06" [b9_switch_rpm_tail]="C11 C06 C01" [b10_rename_vers_toranges]="C04 C16" [b11_rename_builder_locals]="C12 C13 C06" )
 for f in tools/benign/*.diff; do
   n=$(basename $f .diff)
   out=$(tools/mutcheck.sh $f ${props[$n]} 2>&1)
